@@ -168,12 +168,13 @@ func c04Run(c *Ctx) {
 	c04RunKeys(c, opt) // c04_keys.go: the same three routes over keys that are arbitrary strings
 	c04flRun(c)        // c04_fluent.go: fluent.ConfigHelper histories (Add / Load / Mutate / Result / Save)
 	c04RunKeys(c, opt)         // c04_keys.go: the same three routes over keys that are arbitrary strings
-	c04RunIndexNamed(c, opt)   // c04_keys.go: a list on one side, a container whose member names are list positions on the other
 	c04RunTyped(c, g)          // c04_typed.go: ConfigHelper with the defaults as typed Go values, sparse overrides
 	c04RunOvHist(c, g, second) // c04_ovhist.go: an overlay document read, changed (API and live nodes), read again
 	if !c.searchMode {
 		c04RunWide(c, g, opt) // c04_wide.go: a few documents with thousands of entries
 	}
+	// last of the random streams (the streams above draw what they drew before it existed)
+	c04RunIndexNamed(c, opt) // c04_keys.go: a list on one side, a container whose member names are list positions on the other
 	if c.Thorough() && !c.searchMode {
 		all := c04EnumDocs()
 		c.Note("exhaustive scope: %d root containers of size <= 4 over keys {a,b}; all ordered pairs x both strategies", len(all))
